@@ -58,7 +58,7 @@ def pair_labels(case):
 def body_sumdiff(case):
     a = build.make_tt(case['a'])
     b = build.make_tt(case['b'])
-    da, db = dense.contract(a.cores), dense.contract(b.cores)
+    da, db = np.array(dense.contract(a.cores)), np.array(dense.contract(b.cores))
     scale = dense.scale_of(a.cores) + dense.scale_of(b.cores)
     s = a + b
     require_consistent(s, 'sum_consistent')
@@ -73,6 +73,11 @@ def body_sumdiff(case):
     close(dense.contract(z.cores), 0 * da, TOL, scale, 'diff_value', 'A-A')
     t = a + a
     close(dense.contract(t.cores), 2 * da, TOL, scale, 'sum_value', 'A+A')
+    # sums and differences are new tensor trains: the operands still denote A and B afterwards
+    for r_, nm in ((s, 'A+B'), (m, 'A-B'), (z, 'A-A'), (t, 'A+A')):
+        require(r_ is not a and r_ is not b, 'sum_value', nm + ' handed back an operand')
+    close(dense.contract(a.cores), da, TOL, scale, 'sum_value', 'operand A after the sums and differences')
+    close(dense.contract(b.cores), db, TOL, scale, 'sum_value', 'operand B after the sums and differences')
     return pair_labels(case)
 
 
